@@ -108,6 +108,29 @@ def main():
             server.terminate(timeout=2, force=True)
         except Exception:
             pass
+    if name in ('close_on_none', 'all'):
+        # a server that stops when a client SENDS None (close_on_none=True) must not stop because a client hangs up without sending anything
+        server2 = spawn_server(('127.0.0.1', 0), close_on_none=True)
+        try:
+            for what in ('connect and close', 'half a header'):
+                s = raw(server2.addr)
+                if what == 'half a header':
+                    s.sendall(b'\x00\x00')
+                s.close()
+                time.sleep(0.5)
+                if not server2.is_alive():
+                    viol.append(f'close_on_none server: a client that hung up ({what}) without sending a request stopped the server')
+                    break
+            if server2.is_alive():
+                ok, why = server_serves(server2.addr)
+                obs['close_on_none_serves'] = ok
+                if not ok:
+                    viol.append('close_on_none server no longer serves healthy clients after faulty ones: ' + why)
+        finally:
+            try:
+                server2.terminate(timeout=2, force=True)
+            except Exception:
+                pass
     print(json.dumps({'violates': bool(viol), 'violations': viol, 'observed': obs, 'scenario': sc}, default=repr))
 
 
